@@ -284,6 +284,29 @@ def powerloss_image(tmpl: Template, rundir: str, pre_inodes: dict):
 
 
 # --------------------------------------------------------------------------------------- oracle
+def completed_oracle(tmpl: Template, rundir: str, tag: str):
+    """The operation returned normally although one call failed: it must have completed CORRECTLY, i.e. a fresh handle sees
+    exactly the state a fault-free run produces (checked before any re-run)."""
+    from disk_objectstore import Container  # pylint: disable=import-outside-toplevel
+
+    root = os.path.join(rundir, 'c')
+    post = tmpl.post_model()
+    probs = []
+    with Container(root) as fresh:
+        try:
+            got = fresh.get_objects_content(list(post), skip_if_missing=False)
+        except Exception as exc:  # noqa: BLE001
+            return [(f'{tag}:completed-but-unreadable', f'the operation returned normally but reading its result raises {exc!r}')]
+        for k, d in post.items():
+            if got.get(k) != d:
+                probs.append((f'{tag}:completed-but-wrong', f'the operation returned normally (no exception) but object {k[:12]} is '
+                                                            f'{"missing" if got.get(k) is None else "wrong"} afterwards'))
+        for k in tmpl.deleted:
+            if fresh.has_object(k):
+                probs.append((f'{tag}:completed-but-wrong', f'the delete returned normally but {k[:12]} still exists'))
+    return probs[:3]
+
+
 def disk_oracle(tmpl: Template, rundir: str, tag: str, allow_minus1_failure=True):
     """C05/C06/C17 on-disk oracle. Returns (problems, counters)."""
     root = os.path.join(rundir, 'c')
